@@ -193,6 +193,14 @@ static Case gen_c18()
     c.seti("chunk", 64);
     c.seti("plen", 16 * (Tn * g::range(258, 300) + g::range(0, 8)) - 1 - g::range(0, 16));
   }
+  // ... and, rarely, several thousand blocks (keystream generated in batches of 2^10 / 2^11 blocks)
+  if (g::coin(2))
+  {
+    long Tn = g::range(2, 4);
+    c.seti("T", Tn);
+    c.seti("chunk", wapi::chunk_capacity());
+    c.seti("plen", 16 * (Tn * g::oneof<long>({1030, 1100, 2050, 2100, 4100}) + g::range(0, 8)) - 1 - g::range(0, 16));
+  }
   c.seti("cmode", g::coin(90) ? g::range(1, 5) : 0);
   c.seti("pstyle", g::coin(50) ? 1 : g::coin(50) ? 3 : 0); // equal chunks half of the time
   c.setb("seed2", g::coin(85) ? gen_seed() : c.getb("seed"));
@@ -227,6 +235,11 @@ static void fixed_c18(Ctx &ctx)
         c.seti("chunk", 64);
         c.seti("plen", 16 * 520 - 5);
         c.seti("pstyle", 0);
+        eval_fixed(*p, ctx, c);
+        // 2 streams x 2100 blocks (a keystream cache / batch of 1024 or 2048 blocks would show), equal chunks
+        c.seti("chunk", 256);
+        c.seti("plen", 16 * 4200 - 5);
+        c.seti("pstyle", 1);
         eval_fixed(*p, ctx, c);
       }
     }
